@@ -3,8 +3,8 @@ from ..core import *
 from .. import harness, gen, pyref, gadgets as G, coq
 from ..curve import *
 
-VO = ['Props/C14.vo', 'Tie/Gadgets.vo']
-FILES = ['Props/C14.v', 'Tie/Gadgets.v', 'Proofs/GadgetProofs.v']
+VO = ['Props/C14.vo', 'Tie/Gadgets.vo', 'Tie/GadgetsSign.vo']
+FILES = ['Props/C14.v', 'Tie/Gadgets.v', 'Tie/GadgetsSign.v', 'Proofs/GadgetProofs.v']
 
 def adversarial_cases(ctx, scale):
     rng = ctx.rng; pool = Pool('ark', rng.fork('pool'), n_rand=3 * scale); cases = []
@@ -142,10 +142,46 @@ def run_check(ctx):
                               {'stage': 'search', 'script': [l], 'output': [o]}, key, found_input=True)
     except RuntimeError as e:
         ctx.violation('harness failed: %s' % str(e)[:300], {'stage': 'build', 'log': str(e)[-3000:]}, {'stage': 'build'}, found_input=False)
+    # the sign gadgets must be bound to the UNIQUE bit decomposition: after the honest synthesis the harness overwrites every window of 253
+    # boolean witnesses the gadget allocated with the bits of n + p (n the integer they denote; possible when n < 2^253 - p), re-solves the
+    # dependent witnesses and evaluates the constraint matrices (harness op r1.forge).  Inputs stay fixed; a satisfied forged assignment with a
+    # different output, or for an input the native operation rejects, is a soundness failure.
+    try:
+        bound = (1 << 253) - Q; fr = ctx.rng.fork('forge'); fl = []
+        small = [0, 1, 2, 3, bound - 1, bound - 2] + [fr.below(bound) for _ in range(2 + 2 * scale)]
+        for x in small:
+            for g_ in ('is_negative', 'is_nonnegative', 'abs'):
+                fl.append('r1.forge %s %s %x' % (g_, 'witness' if (x + len(fl)) % 2 else 'input', x))
+        negs = []
+        tries = 0
+        while len(negs) < 2 + scale and tries < 4000:
+            tries += 1; s0 = fr.below(Q)
+            if s0 & 1 == 0 and pyref.decode_spec(s0) is not None and Q - s0 < bound: negs.append(Q - s0)
+        for s_ in negs + [bound - 1 if (bound - 1) & 1 else bound - 2]:
+            fl.append('r1.forge decode witness %x' % s_); fl.append('r1.forge decode input %x' % s_)
+        for s_ in pool.encodable[:3 + scale]: fl.append('r1.forge decode witness %x' % s_)
+        for c in pool.base[:3] + pool.derived[:3 + 2 * scale]:
+            if pyref.valid(c): fl.append('r1.forge encode witness %s' % E(c))
+        for r0 in [0, 1, 5] + [fr.below(Q) for _ in range(scale)]: fl.append('r1.forge elligator witness %x' % r0)
+        fo = harness.run_script('ark', fl)
+        ctx.cov['evaluations'] += len(fl); ctx.cov['distinct_nontrivial'] += len(set(fl))
+        nf = 0
+        for l, o in zip(fl, fo):
+            d = G.parse_r1(o)
+            nf += int(d.get('nforge', '0') or 0) if str(d.get('nforge', '0')).isdigit() else 0
+            if d.get('unsound') == '1':
+                ctx.violation('C14: %s — a forged bit decomposition (the bits of n + p instead of n) satisfies the constraints: %s' % (l[:90], o[o.find('unsound'):][:200]),
+                              {'stage': 'search', 'script': [l], 'output': [o], 'replay_cmd': 'printf "%s\\n" | /verif/.cache/target-ark/release/h_ark' % l},
+                              {'gadget': l.split()[1], 'class': 'non_unique_bit_decomposition'}, found_input=True)
+            elif 'unsound=0' not in o:
+                broken.append(('forgery op failed: %s -> %s' % (l[:80], o[:80]), {'stage': 'correspondence', 'line': l, 'implementation': o}))
+        ctx.extra['bit_forgeries_tried'] = nf
+    except RuntimeError as e:
+        ctx.violation('harness failed: %s' % str(e)[:300], {'stage': 'build', 'log': str(e)[-3000:]}, {'stage': 'build'}, found_input=False)
     if broken and not ctx.violations:
         for desc, replay in broken[:5]:
             ctx.violation('C14 is no longer shown to hold — %s; no failing input (beyond the recorded finding) found on the implementation' % desc, replay,
                           {'stage': replay.get('stage'), 'line': replay.get('line', '')[:60]}, found_input=False)
-    ctx.cov['rule'] = 'for each gadget input, every hint (flag, y) with y in {0, ±1, ±sqrt(1/x), ±sqrt(zeta/x), random} through the hint-override hook; witness allocation with off-curve / mismatching coordinates and encodings; distinct by op line'
+    ctx.cov['rule'] = 'for each gadget input, every hint (flag, y) with y in {0, ±1, ±sqrt(1/x), ±sqrt(zeta/x), random} through the hint-override hook; witness allocation with off-curve / mismatching coordinates and encodings; non-unique bit decompositions forged into every 253-bit window of the sign gadgets; distinct by op line'
     ctx.assumptions += ['determinism of ark-r1cs-std 0.4 primitives (every non-hint witness is forced by its constraints) — assumed by Model/Gadgets.v, supported by the correspondence over the hint set',
                         'Coq kernel', 'extraction', 'known_findings.json lists the isqrt(0)/(true, ±1) class; any other unsound acceptance is reported']
